@@ -18,17 +18,30 @@ const DustDenom = "dust"
 
 func isMultiType(t string) bool { return t == "multi2" || t == "multi3" || t == "nested" }
 
+// outside: account i is not part of the genesis file
+func (g *Genesis) outside(i int) bool {
+	if i < len(g.KeyTypes) && isMultiType(g.KeyTypes[i]) {
+		return true
+	}
+	for _, l := range g.Late {
+		if l == i {
+			return true
+		}
+	}
+	return false
+}
+
 // EffectiveBalance: multisig accounts cannot appear in the genesis file (auth's
 // genesis validation refuses keys without a consensus form), so they start empty.
 func (g *Genesis) EffectiveDust(i int) int64 {
-	if i >= len(g.Dust) || (i < len(g.KeyTypes) && isMultiType(g.KeyTypes[i])) {
+	if i >= len(g.Dust) || g.outside(i) {
 		return 0
 	}
 	return g.Dust[i]
 }
 
 func (g *Genesis) EffectiveBalance(i int) int64 {
-	if i < len(g.KeyTypes) && isMultiType(g.KeyTypes[i]) {
+	if g.outside(i) {
 		return 0
 	}
 	return g.Balances[i]
@@ -41,7 +54,7 @@ func BuildInitChain(kr *Keyring, g *Genesis) abci.RequestInitChain {
 	total := sdk.ZeroInt()
 	dustTotal := sdk.ZeroInt()
 	for i := range g.Balances {
-		if i < len(g.KeyTypes) && isMultiType(g.KeyTypes[i]) {
+		if g.outside(i) {
 			continue
 		}
 		a := kr.Get(i)
@@ -116,11 +129,15 @@ func BuildInitChain(kr *Keyring, g *Genesis) abci.RequestInitChain {
 	if err != nil {
 		panic(err)
 	}
+	maxGas := int64(-1)
+	if g.MaxGas > 0 {
+		maxGas = g.MaxGas
+	}
 	return abci.RequestInitChain{
 		Time:    time.Unix(g.TimeUnix, 0).UTC(),
 		ChainId: ChainID,
 		ConsensusParams: &abci.ConsensusParams{
-			Block:     &abci.BlockParams{MaxBytes: 1 << 22, MaxGas: -1},
+			Block:     &abci.BlockParams{MaxBytes: 1 << 22, MaxGas: maxGas},
 			Evidence:  &abci.EvidenceParams{MaxAge: 100000},
 			Validator: &abci.ValidatorParams{PubKeyTypes: []string{tmtypes.ABCIPubKeyTypeEd25519}},
 		},
